@@ -9,6 +9,8 @@ CONFIG = {
     'user_havoc': 'all',
     # an action does not complete or cancel the CancellableAction / task future it is running for (rely of C20)
     'protected_classes': ['plumpy.futures.CancellableAction', 'asyncio.Future', 'kiwipy.Future'],
+    # the action may be aborted by a BaseException-only class (KeyboardInterrupt, CancelledError): at most once must still hold
+    'user_raises_base_exception': True,
 }
 
 
@@ -33,6 +35,9 @@ def ca_run(self, *args, **kwargs):
     ensures('spent', self._action is None)
     raises(plumpy.futures.InvalidStateError, old(self._state) != 'PENDING' and len(calls()) == old(len(calls()))
            and unchanged(self._state, self._result, self._exception, self._action))
+    # aborted by a BaseException-only class: it propagates, and the action is spent all the same (never runs a second time)
+    raises(BaseException, not isinstance(exc, Exception) and old(self._state) == 'PENDING' and len(calls()) == old(len(calls())) + 1
+           and exc is attr(calls()[len(calls()) - 1], 'raised') and self._action is None)
     replay('ran_once', 'cancellable_action')
     replay('outcome_reported', 'cancellable_action')
     replay('raises_only_declared', 'cancellable_action')
